@@ -89,6 +89,9 @@ def integral_matching_reference_stretch(x, y, x_ref, y_ref, fixed_points_in_x=No
     """
     x, y, x_ref, y_ref = np.asarray(x), np.asarray(y), np.asarray(x_ref), np.asarray(y_ref)
 
+    if target_function_integral_method not in ['trapezoid', 'rectangle']:
+        raise ValueError("Unknown integral method")
+
     if fixed_points_in_x is not None:
         if len(fixed_points_in_x) > len(x):
             raise ValueError("Size of 'fixed_points_in_x' cannot be larger than the number of points in 'x'")
